@@ -2,7 +2,7 @@
 C25 — retransmission accounting of the RPC engine model: number of transmissions against the
 retry limit, identity of every transmission, spacing by the retry interval.
 -/
-import TdModel.Model.C24
+import TdModel.Lemmas.C24Ack
 set_option linter.unusedVariables false
 namespace TdModel.Rpc
 
@@ -49,7 +49,12 @@ theorem retry_init (cfg : Cfg) : Retry cfg init := by
 
 macro "retry_close" hg:term : tactic =>
   `(tactic| (constructor <;>
-      simp [setCall, setNotif, finish, Call.finish, removeAck, Call.exitLoop, Call.retC, newCall, Call.outcome, $hg:term] <;>
+      simp [setCall, setNotif, finish, Call.finish, removeAck, exitAck, Call.exitLoop, Call.retC, newCall, Call.outcome, Cfg.std_all $hg] <;>
+      grind [Retry, Call.outcome]))
+
+macro "retry_close0" : tactic =>
+  `(tactic| (constructor <;>
+      simp [setCall, setNotif, removeAck, Call.exitLoop, Call.retC, newCall, Call.outcome] <;>
       grind [Retry, Call.outcome]))
 
 set_option maxHeartbeats 4000000 in
@@ -58,13 +63,14 @@ theorem retry_start {cfg : Cfg} {s s' : State} {i seq body : Nat} (hm : 1 ≤ cf
   unfold stepStart at hs
   split at hs
   · simp at hs
-  · dsimp only at hs
-    split at hs <;> simp at hs <;> subst hs <;> retry_close True.intro
+  · try dsimp only at hs
+    split at hs <;> simp at hs <;> subst hs <;> retry_close0
 
 set_option maxHeartbeats 4000000 in
-theorem retry_sret {cfg : Cfg} {s s' : State} {i : Nat} {o : Outcome} (hg : cfg.guard = true) (hm : 1 ≤ cfg.maxRetries) (h : Retry cfg s)
+theorem retry_sret {cfg : Cfg} {s s' : State} {i : Nat} {o : Outcome} (hg : cfg.std = true) (hm : 1 ≤ cfg.maxRetries) (h : Retry cfg s)
     (hs : stepSret cfg s i o = some s') : Retry cfg s' := by
   unfold stepSret at hs
+  std_norm hg at hs
   split at hs
   · simp at hs
   · split at hs <;> try (simp at hs)
